@@ -31,7 +31,33 @@ struct Run {
 
 static DUMP: std::sync::atomic::AtomicBool = std::sync::atomic::AtomicBool::new(false);
 
+/// Outcome-level rendering used for inserted calls on paced histories: per node the
+/// application events in order, plus loss-recovery counters. Packetization may shift with
+/// pacer rounding; what is delivered, reported and declared lost may not.
+fn semantic_trace(p: &StdPair) -> u64 {
+    use std::hash::{Hash, Hasher};
+    let mut h = std::collections::hash_map::DefaultHasher::new();
+    let mut per_node: Vec<Vec<&String>> = vec![vec![], vec![]];
+    for r in &p.w.recs {
+        if let Rec::Event { node, ev, .. } = r {
+            if *node < 2 {
+                per_node[*node].push(ev);
+            }
+        }
+    }
+    per_node.hash(&mut h);
+    for node in [CLIENT, SERVER] {
+        for s in p.w.nodes[node].conns.values().chain(p.w.nodes[node].dead.iter().map(|(_, s)| s)) {
+            let st = s.conn.stats();
+            (st.path.lost_packets, st.path.congestion_events, st.path.black_holes_detected, st.frame_rx.stream > 0).hash(&mut h);
+        }
+    }
+    h.finish()
+}
+
 struct Out {
+    sem_lines: Vec<String>,
+    sem: u64,
     dump: String,
     abs: u64,
     abs_lines: Vec<String>,
@@ -144,8 +170,20 @@ fn run(process_base: Instant, hs: &[Hist], r: &Run) -> Out {
         p
     });
     match res {
-        Err(e) => Out { dump: String::new(), abs: 0, abs_lines: vec![], trace: 0, steps: 0, streak: 0, post_drain: vec![], timeouts_rel: vec![], panic: Some(e) },
+        Err(e) => Out { sem_lines: vec![], sem: 0, dump: String::new(), abs: 0, abs_lines: vec![], trace: 0, steps: 0, streak: 0, post_drain: vec![], timeouts_rel: vec![], panic: Some(e) },
         Ok(p) => Out {
+            sem_lines: if DUMP.load(std::sync::atomic::Ordering::Relaxed) {
+                let mut v = vec![];
+                for node in [CLIENT, SERVER] {
+                    let evs: Vec<String> = p.w.recs.iter().filter_map(|r| match r { Rec::Event { node: n, ev, .. } if *n == node => Some(ev.clone()), _ => None }).collect();
+                    v.push(format!("node{node} events {evs:?}"));
+                    for s in p.w.nodes[node].conns.values() {
+                        v.push(format!("node{node} stats {:?}", s.conn.stats().path));
+                    }
+                }
+                v
+            } else { vec![] },
+            sem: semantic_trace(&p),
             dump: if DUMP.load(std::sync::atomic::Ordering::Relaxed) { crate::trace::dump(&p.w) } else { String::new() },
             abs: abstract_trace(&p).0,
             abs_lines: if DUMP.load(std::sync::atomic::Ordering::Relaxed) { abstract_trace(&p).1 } else { vec![] },
@@ -162,7 +200,7 @@ fn run(process_base: Instant, hs: &[Hist], r: &Run) -> Out {
 fn histories(thorough: bool) -> Vec<Hist> {
     let mut v = vec![];
     let mk = |cfg: &'static str, wl, devs: Devs, script: Vec<(u64, Op)>, sname: &'static str| Hist { cfg, wl, devs, script, sname };
-    for cfg in ["default", "idle30s", "retry", "cidlife", "ackfreq", "tinywin"] {
+    for cfg in ["nopace", "default", "idle30s", "retry", "cidlife", "ackfreq", "tinywin"] {
         for wl in [Wl::W1, Wl::W2, Wl::W5] {
             v.push(mk(cfg, wl, vec![], vec![], "none"));
         }
@@ -170,6 +208,8 @@ fn histories(thorough: bool) -> Vec<Hist> {
     v.push(mk("default", Wl::W2, vec![], vec![(20, Op::KeyUpdate(CLIENT))], "keyupd-c@20"));
     v.push(mk("default", Wl::W2, vec![], vec![(18, Op::Rebind(CLIENT, addr(9)))], "rebind@18"));
     v.push(mk("default", Wl::W6, vec![], vec![(25, Op::Rebind(CLIENT, addr(9))), (25, Op::LocalAddrChanged(CLIENT))], "migrate@25"));
+    v.push(mk("nopace", Wl::W6, vec![], vec![(25, Op::Rebind(CLIENT, addr(9))), (25, Op::LocalAddrChanged(CLIENT))], "migrate@25"));
+    v.push(mk("nopace", Wl::W2, vec![], vec![(20, Op::KeyUpdate(CLIENT))], "keyupd-c@20"));
     // every k=1 deviation history of W1/W2 in the first 30 datagrams
     let n = if thorough { 40 } else { 20 };
     for wl in [Wl::W1, Wl::W2] {
@@ -200,6 +240,7 @@ pub fn main(args: &Args) -> ! {
     let (bres, _) = e3((0..hs.len()).collect::<Vec<_>>(), dl, |&i| run(pbase, &hs, &Run { h: i, shift: Duration::ZERO, extra: None, drained_part: false }));
     let base: Vec<(u64, u64)> = bres.iter().map(|(_, o)| (o.trace, o.steps)).collect();
     let base_abs: Vec<u64> = bres.iter().map(|(_, o)| o.abs).collect();
+    let base_sem: Vec<u64> = bres.iter().map(|(_, o)| o.sem).collect();
     let mut runs = vec![];
     for (i, _) in hs.iter().enumerate() {
         runs.push(Run { h: i, shift: Duration::ZERO, extra: None, drained_part: false });
@@ -207,7 +248,7 @@ pub fn main(args: &Args) -> ! {
             runs.push(Run { h: i, shift: Duration::from_secs(sh), extra: None, drained_part: false });
         }
         // insertion points only for the first histories in quick (they dominate the cost)
-        let ins = thorough || i < 21;
+        let ins = thorough || i < 29;
         if ins {
             let steps = base[i].1.min(if thorough { 400 } else { 120 });
             for j in 0..steps {
@@ -217,7 +258,7 @@ pub fn main(args: &Args) -> ! {
                 }
             }
         }
-        if i < 21 || thorough {
+        if i < 29 || thorough {
             runs.push(Run { h: i, shift: Duration::ZERO, extra: None, drained_part: true });
         }
     }
@@ -255,7 +296,13 @@ pub fn main(args: &Args) -> ! {
         }
         // inserted calls may legitimately move pacing-derived instants by rounding; they must not
         // change what is sent or reported, so they are compared on the timing-insensitive trace
-        let differs = if r.extra.is_some() { o.abs != base_abs[r.h] } else { o.trace != base[r.h].0 };
+        // un-paced histories (huge fixed window): packet-for-packet equality; paced histories:
+        // outcome-level equality (events, loss-recovery counters)
+        let differs = if r.extra.is_some() {
+            if h.cfg == "nopace" { o.abs != base_abs[r.h] } else { o.sem != base_sem[r.h] }
+        } else {
+            o.trace != base[r.h].0
+        };
         if differs {
             let sig = if r.shift != Duration::ZERO {
                 n_shift += 1;
@@ -322,6 +369,12 @@ fn replay(args: &Args) -> ! {
                 println!("  ctx: {}", &la[k][..la[k].len().min(200)]);
             }
             break;
+        }
+    }
+    println!("semantic equal: {}", a.sem == b.sem);
+    for (x, y) in a.sem_lines.iter().zip(b.sem_lines.iter()) {
+        if x != y {
+            println!("  sem diff:\n   ref {x}\n   var {y}");
         }
     }
     println!("reference trace={:#x} steps={} ; variant trace={:#x} steps={} streak={} post_drain={:?} timeouts={:?} panic={:?}", a.trace, a.steps, b.trace, b.steps, b.streak, b.post_drain, b.timeouts_rel, b.panic);
